@@ -5,6 +5,7 @@
   arbitrary window positions; `R`, `C`, `M`, `W` are arbitrary too, and are instantiated with the
   constants the translator reads out of /repo at the end of the file.
 -/
+import Ramses.Props.C11Sync
 import Ramses.Model.Limiter
 import Ramses.Gen.Consts
 namespace Ramses.C11
